@@ -89,21 +89,23 @@ let verdict case impl =
     else
       let sp = hex_of_z (token_spec p (List.concat chunks)) in
       if obs <> sp then "viol spec=" ^ sp ^ " model=" ^ m else "diff model=" ^ m
-  | ["K"; p; ncols; wire; values], [o_slots; o_chunks; o_token; o_typed; o_pk] ->
+  | [("K" | "R") as kind; p; ncols; wire; values], [o_slots; o_chunks; o_token; o_typed; o_pk] ->
+    (* K: the main (overflow-checks) build; R: the same code built without overflow checks *)
+    let chk = (kind = "K") in
     let p = part_of p and ncols = nat_of_int (int_of_string ("0x" ^ ncols))
     and wire = nlist_of_string wire and values = values_of_string values in
-    let slots = pk_new ncols wire values in
+    let slots = pk_new chk ncols wire values in
     let m_slots = slots_string slots in
     let m_chunks = chunks_result_string (match slots with Err e -> Err e | Ok s -> encoded_pk_chunks s) in
-    let m_token = token_opt_string (ps_calculate_token p ncols wire values) in
-    let m_pk = pk_string (ps_compute_partition_key ncols wire values) in
+    let m_token = token_opt_string (ps_calculate_token chk p ncols wire values) in
+    let m_pk = pk_string (ps_compute_partition_key chk ncols wire values) in
     let typed_ok = (o_typed = "na" || o_typed = m_token) in
     let pk_ok = (o_pk = "na" || o_pk = m_pk) in
     if o_slots = m_slots && o_chunks = m_chunks && o_token = m_token && typed_ok && pk_ok then "ok"
     else begin
       let model = Printf.sprintf "model=%s;%s;%s;%s" m_slots m_chunks m_token m_pk in
       (* the property on the implementation's own outputs *)
-      let tok_viol o = o <> "na" && not (prop_token_ok p ncols wire values (parse_token_opt o)) in
+      let tok_viol o = o <> "na" && o <> "err:ser" && not (prop_token_ok p ncols wire values (parse_token_opt o)) in
       let pk_viol =
         o_pk <> "na" && key_okb ncols wire values &&
         (let comps = spec_components wire values in
@@ -139,6 +141,74 @@ let verdict case impl =
       match want with
       | Some t when o_tok <> hex_of_z t -> "viol spec=" ^ hex_of_z t ^ " model=" ^ m_from ^ ";" ^ m_tok
       | _ -> "diff model=" ^ m_from ^ ";" ^ m_tok
+    end
+  | ("E" :: _), ("error" :: _) -> "ok not-run"   (* the scenario could not start: counted and capped by checks/c03.py *)
+  | ["E"; mode; rows; table; key], [o_part; o_tok] ->
+    (* end to end: mock cluster metadata -> Session::prepare -> partitioner of the statement -> token *)
+    let cs s = chars_of_string s in
+    let rows = if rows = "-" then [] else List.map (fun r ->
+        match String.split_on_char ':' r with
+        | [k; t; v] -> ((cs k, cs t), (if v = "N" then None else Some (chars_of_hexstr (String.sub v 1 (String.length v - 1)))))
+        | _ -> failwith "bad row") (String.split_on_char ',' rows) in
+    let (ks, t) = (match String.split_on_char ':' table with [k; t] -> (cs k, cs t) | _ -> failwith "bad table") in
+    let st = if mode = "x" then None else Some rows in
+    let in_md = (mode <> "u") in
+    let key = bytes_of_hexstr key in
+    let p = prepared_partitioner st in_md (Some (ks, t)) in
+    let m_part = (match p with PMurmur3 -> "m" | PCdc -> "c") in
+    let m_tok = "some:" ^ hex_of_z (feed p [key]) in
+    if o_part = m_part && o_tok = m_tok then "ok"
+    else begin
+      let want = (if mode <> "s" then None else
+                    match partitioners_get rows ks t None with
+                    | Some (Some name) when ends_with name cdc_suffix -> Some (token_spec PCdc key)
+                    | Some (Some name) when ends_with name murmur3_suffix -> Some (token_spec PMurmur3 key)
+                    | _ -> None) in
+      match want with
+      | Some tk when o_tok <> "some:" ^ hex_of_z tk -> "viol spec=" ^ hex_of_z tk ^ " model=" ^ m_part ^ ";" ^ m_tok
+      | _ -> "diff model=" ^ m_part ^ ";" ^ m_tok
+    end
+  | ["Y"; p; types; wire; cells], [o_tok; o_pk] ->
+    (* typed values through serialize_values (C01's ser_value) *)
+    let p = part_of p and wire = nlist_of_string wire in
+    let ty = function
+      | "i" -> TNative NInt | "b" -> TNative NBigInt | "s" -> TNative NText | "u" -> TNative NUuid
+      | "o" -> TNative NBoolean | "h" -> TNative NSmallInt | "t" -> TNative NTinyInt | "x" -> TNative NBlob
+      | s -> failwith ("bad type " ^ s) in
+    let cols = if types = "-" then [] else List.map ty (String.split_on_char ',' types) in
+    let cell s =
+      if s = "N" then CNull else if s = "U" then CUnset else
+        let k = String.sub s 0 1 and v = String.sub s 2 (String.length s - 2) in
+        CVal (match k with
+            | "i" -> CInt (z_of_hex v) | "b" -> CBigInt (z_of_hex v) | "h" -> CSmallInt (z_of_hex v)
+            | "t" -> CTinyInt (z_of_hex v) | "s" -> CText (bytes_of_hexstr v) | "x" -> CBlob (bytes_of_hexstr v)
+            | "u" -> CUuid (bytes_of_hexstr v) | "o" -> CBoolean (v = "1")
+            | _ -> failwith ("bad cell " ^ s)) in
+    let cells = if cells = "-" then [] else List.map cell (String.split_on_char ',' cells) in
+    let terr = function TSerialization -> "err:ser" | TKey e -> err_string e in
+    let m_tok = (match ps_calculate_token_typed true p cols wire cells with
+        | Err e -> terr e | Ok None -> "none" | Ok (Some t) -> "some:" ^ hex_of_z t) in
+    let m_pk = (match ps_compute_partition_key_typed true cols wire cells with
+        | Err e -> terr e | Ok b -> "ok:" ^ hexstr_of_bytes b) in
+    if o_tok = m_tok && o_pk = m_pk then "ok"
+    else begin
+      match typed_row cols cells with
+      | Some raws when o_tok <> "err:ser"
+                    && not (prop_token_ok p (length cols) wire raws (parse_token_opt o_tok)) ->
+        "viol spec_token=" ^ hex_of_z (spec_token p wire raws) ^ " model=" ^ m_tok ^ ";" ^ m_pk
+      | _ -> "diff model=" ^ m_tok ^ ";" ^ m_pk
+    end
+  | ["Z"; p; n; msb; data], [o_tok; o_shard] ->
+    (* token -> Sharder::shard_of (C11's model) *)
+    let p = part_of p and n = n_of_hex n and msb = n_of_hex msb and data = bytes_of_hexstr data in
+    let t = hash_one p data in
+    let m_tok = hex_of_z t and m_sh = hex_of_n (shard_of n msb t) in
+    if o_tok = m_tok && o_shard = m_sh then "ok"
+    else begin
+      let st = token_spec p data in
+      if o_shard <> hex_of_n (spec_shard_of n msb st) || o_tok <> hex_of_z st
+      then "viol spec=" ^ hex_of_z st ^ "," ^ hex_of_n (spec_shard_of n msb st)
+      else "diff model=" ^ m_tok ^ "," ^ m_sh
     end
   | ["S"; data], [r1; r2] ->
     (* census-style tie of the SPECIFICATION: hash3_x64_128 against the independent reference of
